@@ -25,6 +25,8 @@ impl Vm {
       ExecutionSignal::Ok => self.execute(mode),
       ExecutionSignal::OkReturn => ExecutionResult::Ok(self.fiber.pop()),
       ExecutionSignal::RuntimeError => ExecutionResult::RuntimeError,
+      // a native called directly may be exit, hand the exit on like one from the nested loop
+      ExecutionSignal::Exit => ExecutionResult::Exit(self.exit_code),
       _ => self.internal_error("Unexpected signal in run_fun."),
     };
 
@@ -55,6 +57,8 @@ impl Vm {
       ExecutionSignal::Ok => self.execute(mode),
       ExecutionSignal::OkReturn => ExecutionResult::Ok(self.fiber.pop()),
       ExecutionSignal::RuntimeError => ExecutionResult::RuntimeError,
+      // a native called directly may be exit, hand the exit on like one from the nested loop
+      ExecutionSignal::Exit => ExecutionResult::Exit(self.exit_code),
       _ => self.internal_error("Unexpected signal in run_method."),
     };
 
